@@ -12,7 +12,7 @@ import ast
 
 from rsa.cfg import cfg_of
 from rsa.model import AnchorError, Undecided, call_name, unparse, walk_no_nested
-from rsa.terms import canon, single_defs
+from rsa.terms import canon, inline_locals, single_defs
 from rsa.util import find_calls, require
 
 AF = "resonaate.estimation.adaptive.adaptive_filter.AdaptiveFilter"
@@ -491,6 +491,130 @@ def rule_r4(chk, p, t):
     r.guard(rs.qualname, f4)
 
 
+MIXTURE_INPUT = ("models", "model_weights", "mode_probabilities")
+
+
+def rule_r5(chk, p, t):
+    r = chk.rule(
+        "C18.R5",
+        "closure hands back the surviving model",
+        3,
+        "at every call of `_resumeSequentialFiltering` (it copies the combined estimate, covariance and update "
+        "products into the handed-back filter): (a) on every path, each store to the models / weights / mode "
+        "probabilities is followed by a recompilation of the mixture (prune or _compileUpdateStep) before the call; "
+        "(b) nothing reachable after the call changes a field the call has read; (c) in the pruning filter the call "
+        "is reached only with one model left: control-dependent on `len(self.models) == 1`, or every path to it "
+        "passes through `self.prune(...)` of every model but the solution",
+        "that the pruned indices are the right ones at run time",
+    )
+    from rsa.effects import EffectAnalysis
+
+    ea = EffectAnalysis(p, t)
+    af = p.cls(AF)
+    rs = af.methods.get("_resumeSequentialFiltering")
+    require(rs is not None, "_resumeSequentialFiltering not found", af.node)
+    # fields read by the hand-over
+    read = set()
+    for n in ast.walk(rs.node):
+        if isinstance(n, ast.Attribute) and isinstance(n.value, ast.Name) and n.value.id == "self" and isinstance(n.ctx, ast.Load):
+            read.add(n.attr)
+        if isinstance(n, ast.List) and n.elts and all(isinstance(e, ast.Constant) and isinstance(e.value, str) for e in n.elts):
+            read |= {e.value for e in n.elts}
+    read -= {"flags", "_filter_class", "_original_filter", "_converged_filter", "logger"}
+    require({"est_x", "est_p"} <= read, "the hand-over does not read est_x / est_p", rs.node)
+    compile_names = {"prune", "_compileUpdateStep"}
+
+    def self_call(st, names):
+        return [c for c in ast.walk(st) if isinstance(c, ast.Call) and isinstance(c.func, ast.Attribute) and isinstance(c.func.value, ast.Name) and c.func.value.id == "self" and c.func.attr in names]
+
+    sites = []
+    for cls in [af] + p.subclasses(af):
+        for m in cls.methods.values():
+            if m is rs:
+                continue
+            for c in find_calls(m.node, "_resumeSequentialFiltering"):
+                sites.append((cls, m, c))
+    for cls, m, c in sites:
+        cons = f"{m.qualname}:resume"
+
+        def one(cls=cls, m=m, c=c, cons=cons):
+            cfg = cfg_of(m)
+            site = cfg.node_of(c)
+            compile_nodes = [n.id for n in cfg.stmt_nodes() if n.kind in ("stmt", "cond", "return") and self_call(n.ast, compile_names)]
+            bad = []
+            # (a) freshness
+            for n in cfg.stmt_nodes():
+                if n.kind != "stmt" or n.id == site.id:
+                    continue
+                tg = []
+                if isinstance(n.ast, ast.Assign):
+                    tg = n.ast.targets
+                elif isinstance(n.ast, ast.AugAssign):
+                    tg = [n.ast.target]
+                stores = []
+                for x in tg:
+                    b = x
+                    while isinstance(b, ast.Subscript):
+                        b = b.value
+                    if isinstance(b, ast.Attribute) and isinstance(b.value, ast.Name) and b.value.id == "self" and b.attr in MIXTURE_INPUT:
+                        stores.append(b.attr)
+                if not stores:
+                    continue
+                if site.id in cfg.reachable(n.id) and not cfg.must_pass(site.id, via_nodes=compile_nodes, start=n.id):
+                    bad.append(f"stale-mixture:{stores[0]}")
+                    r.violation(cons, f"stale-mixture:{stores[0]}", f"`{unparse(n.ast)[:70]}` changes {stores} and a path reaches the hand-over without recompiling the mixture: the filter handed back carries the estimate of the old weights", m.loc(n.ast))
+            # (b) nothing after the call changes what it read
+            after = cfg.reachable(site.id) - {site.id}
+            for nid in sorted(after):
+                n = cfg.nodes[nid]
+                if n.ast is None or n.kind not in ("stmt", "cond", "return"):
+                    continue
+                for cc in self_call(n.ast, None) if False else [x for x in ast.walk(n.ast) if isinstance(x, ast.Call) and isinstance(x.func, ast.Attribute) and isinstance(x.func.value, ast.Name) and x.func.value.id == "self"]:
+                    callee = p.lookup_method(cls, cc.func.attr)
+                    if callee is None:
+                        continue
+                    w = sorted({e.first_field for e in ea.effects(callee) if e.root == "self" and e.first_field in (read | set(MIXTURE_INPUT))})
+                    if w:
+                        bad.append(f"changed-after:{cc.func.attr}")
+                        r.violation(cons, f"changed-after-handover:{cc.func.attr}", f"`self.{cc.func.attr}(...)` runs after the hand-over and changes {w[:6]}: the filter handed back was built from the mixture before that change (e.g. before the losing models were pruned), not from the surviving model", m.loc(cc))
+                if isinstance(n.ast, (ast.Assign, ast.AugAssign)):
+                    for x in n.ast.targets if isinstance(n.ast, ast.Assign) else [n.ast.target]:
+                        b = x
+                        while isinstance(b, ast.Subscript):
+                            b = b.value
+                        if isinstance(b, ast.Attribute) and isinstance(b.value, ast.Name) and b.value.id == "self" and b.attr in (read | set(MIXTURE_INPUT)):
+                            bad.append(f"changed-after:{b.attr}")
+                            r.violation(cons, f"changed-after-handover:{b.attr}", f"`{unparse(n.ast)[:70]}` changes a field the hand-over has already copied", m.loc(n.ast))
+            # (c) single model (pruning filter only)
+            if cls.name.startswith("Static"):
+                conds = cfg.control_conditions(site.id)
+                single = any((unparse(cfg.nodes[cid].ast) in ("len(self.models) == 1", "self.num_models == 1") and lab is True) or (unparse(cfg.nodes[cid].ast) in ("len(self.models) != 1", "len(self.models) > 1") and lab is False) for cid, lab in conds)
+                prune_nodes = [n.id for n in cfg.stmt_nodes() if n.kind in ("stmt", "cond", "return") and self_call(n.ast, {"prune"})]
+                via_prune = bool(prune_nodes) and cfg.must_pass(site.id, via_nodes=prune_nodes)
+                if via_prune and not single:
+                    # the pruned index set must be the complement of the solution: weights < the closing threshold
+                    pc = self_call(cfg.nodes[prune_nodes[0]].ast, {"prune"})[0]
+                    idx = inline_locals(m.node, pc.args[0]) if pc.args else None
+                    sol = None
+                    for cid, lab in conds:
+                        tst = inline_locals(m.node, cfg.nodes[cid].ast)
+                        if "argwhere" in unparse(tst) and lab is True:
+                            sol = tst
+                    itxt = unparse(idx) if idx is not None else ""
+                    stxt = unparse(sol) if sol is not None else ""
+                    comp = "self.model_weights < self.prune_percentage" in itxt and "self.model_weights >= self.prune_percentage" in stxt and ".size == 1" in stxt
+                    if not comp:
+                        bad.append("prune-set")
+                        r.violation(cons, f"prune-set:{itxt[:60]}", f"closing prunes `{itxt[:80]}` under `{stxt[:80]}`: expected every model below the closing percentage when exactly one is at or above it, so that one model survives", m.loc(pc))
+                if not (single or via_prune):
+                    bad.append("several-models")
+                    r.violation(cons, "several-models-at-handover", "the hand-over can be reached with several models left (neither guarded by `len(self.models) == 1` nor preceded on every path by prune): the filter handed back is a mixture, not the surviving model", m.loc(c))
+            if not bad:
+                r.ok(cons, "mixture recompiled before the hand-over, nothing changes it afterwards" + ("; one model left" if cls.name.startswith("Static") else ""), m.loc(c))
+
+        r.guard(cons, one)
+
+
 def run(chk, p, t):
     chk.explanation = (
         "Static decision of structural necessary conditions of C18: (R1/R2) a path-sensitive typestate "
@@ -502,7 +626,7 @@ def run(chk, p, t):
         "documented expressions. NOT decided: Bayes-rule values, underflow beyond the reset, PSD-ness."
     )
     chk.assumptions += ["a normalising form w / sum(w) yields weights summing to one when the sum is finite and non-zero", "numpy.delete returns a new array without the indexed element"]
-    steps = [("C18.R1", rule_r1_r2), ("C18.R3", rule_r3), ("C18.R4", rule_r4)]
+    steps = [("C18.R1", rule_r1_r2), ("C18.R3", rule_r3), ("C18.R4", rule_r4), ("C18.R5", rule_r5)]
     for rid, fn in steps:
         if chk.only_rule is not None and chk.only_rule != rid and not (chk.only_rule == "C18.R2" and rid == "C18.R1"):
             continue
